@@ -295,6 +295,177 @@ theorem C11_sense_closure_sound_nodup (db : Db) (w : Wordnet) (x : SenseData) (t
   unfold senseClosure
   exact closureGen_inv _ _ _ _ _ [] [] (fun x hx => Reach.base hx) (by simp) (by simp) (by simp) (by simp)
 
+/-- completeness invariant of the worklist: everything explored has its successors seen or
+queued, every start element is seen or queued, and a potential bounds the remaining steps -/
+theorem closureGen_complete_aux {α κ} [BEq κ] [LawfulBEq κ] (related : α → List α) (key : α → κ)
+    (hk : ∀ a b, key a = key b → related a = related b) (start : List α) (univ : List κ) (D : Nat)
+    (hD : ∀ x, (related x).length ≤ D) (hU : ∀ x, ∀ y ∈ related x, key y ∈ univ) :
+    ∀ (f : Nat) (q : List α) (seen : List κ) (acc : List α) (todo : List κ),
+      (∀ x ∈ acc, ∀ y ∈ related x, key y ∈ seen ∨ y ∈ q) →
+      (∀ k ∈ seen, ∃ x ∈ acc, key x = k) → (∀ x ∈ acc, key x ∈ seen) →
+      (∀ s ∈ start, key s ∈ seen ∨ s ∈ q) →
+      (∀ y ∈ q, key y ∈ seen ∨ key y ∈ todo) → (∀ k ∈ univ, k ∈ seen ∨ k ∈ todo) →
+      q.length + todo.length * (D + 1) ≤ f →
+      ∀ y, Reach related start y → key y ∈ (closureGen related key f q seen acc).map key := by
+  intro f
+  induction f with
+  | zero =>
+    intro q seen acc todo h1 h2 h2' h3 _ _ hf y hy
+    have hq : q = [] := by
+      cases q with
+      | nil => rfl
+      | cons _ _ => simp at hf
+    subst hq
+    simp only [closureGen]
+    induction hy with
+    | base hs =>
+      rcases h3 _ hs with h | h
+      · obtain ⟨x, hx, hxk⟩ := h2 _ h
+        exact List.mem_map.mpr ⟨x, List.mem_reverse.mpr hx, hxk⟩
+      · simp at h
+    | step _ hr ih =>
+      obtain ⟨x, hx, hxk⟩ := List.mem_map.mp ih
+      rw [List.mem_reverse] at hx
+      rw [← hk _ _ hxk] at hr
+      rcases h1 x hx _ hr with h | h
+      · obtain ⟨z, hz, hzk⟩ := h2 _ h
+        exact List.mem_map.mpr ⟨z, List.mem_reverse.mpr hz, hzk⟩
+      · simp at h
+  | succ f ih =>
+    intro q seen acc todo h1 h2 h2' h3 h4 h5 hf y hy
+    cases q with
+    | nil =>
+      simp only [closureGen]
+      induction hy with
+      | base hs =>
+        rcases h3 _ hs with h | h
+        · obtain ⟨x, hx, hxk⟩ := h2 _ h
+          exact List.mem_map.mpr ⟨x, List.mem_reverse.mpr hx, hxk⟩
+        · simp at h
+      | step _ hr ih' =>
+        obtain ⟨x, hx, hxk⟩ := List.mem_map.mp ih'
+        rw [List.mem_reverse] at hx
+        rw [← hk _ _ hxk] at hr
+        rcases h1 x hx _ hr with h | h
+        · obtain ⟨z, hz, hzk⟩ := h2 _ h
+          exact List.mem_map.mpr ⟨z, List.mem_reverse.mpr hz, hzk⟩
+        · simp at h
+    | cons x t =>
+      simp only [closureGen]
+      split
+      · rename_i hc
+        have hxs : key x ∈ seen := by simpa using hc
+        apply ih t seen acc todo _ h2 h2' _ _ h5 _ y hy
+        · intro a ha b hb
+          rcases h1 a ha b hb with h | h
+          · exact Or.inl h
+          · rcases List.mem_cons.mp h with rfl | h
+            · exact Or.inl hxs
+            · exact Or.inr h
+        · intro s hs
+          rcases h3 s hs with h | h
+          · exact Or.inl h
+          · rcases List.mem_cons.mp h with rfl | h
+            · exact Or.inl hxs
+            · exact Or.inr h
+        · intro b hb; exact h4 b (List.mem_cons_of_mem _ hb)
+        · simp only [List.length_cons] at hf; omega
+      · rename_i hc
+        have hxs : key x ∉ seen := by simpa using hc
+        have hxt : key x ∈ todo := by
+          rcases h4 x List.mem_cons_self with h | h
+          · exact absurd h hxs
+          · exact h
+        apply ih (t ++ related x) (key x :: seen) (x :: acc) (todo.erase (key x)) _ _ _ _ _ _ _ y hy
+        · intro a ha b hb
+          rcases List.mem_cons.mp ha with rfl | ha
+          · exact Or.inr (List.mem_append_right _ hb)
+          · rcases h1 a ha b hb with h | h
+            · exact Or.inl (List.mem_cons_of_mem _ h)
+            · rcases List.mem_cons.mp h with rfl | h
+              · exact Or.inl List.mem_cons_self
+              · exact Or.inr (List.mem_append_left _ h)
+        · intro k hk'
+          rcases List.mem_cons.mp hk' with rfl | hk'
+          · exact ⟨x, List.mem_cons_self, rfl⟩
+          · obtain ⟨z, hz, hzk⟩ := h2 k hk'
+            exact ⟨z, List.mem_cons_of_mem _ hz, hzk⟩
+        · intro a ha
+          rcases List.mem_cons.mp ha with rfl | ha
+          · exact List.mem_cons_self
+          · exact List.mem_cons_of_mem _ (h2' a ha)
+        · intro s hs
+          rcases h3 s hs with h | h
+          · exact Or.inl (List.mem_cons_of_mem _ h)
+          · rcases List.mem_cons.mp h with rfl | h
+            · exact Or.inl List.mem_cons_self
+            · exact Or.inr (List.mem_append_left _ h)
+        · intro b hb
+          have hbk : key b ∈ seen ∨ key b ∈ todo := by
+            rcases List.mem_append.mp hb with hb | hb
+            · exact h4 b (List.mem_cons_of_mem _ hb)
+            · exact h5 _ (hU x b hb)
+          by_cases e : key b = key x
+          · exact Or.inl (by rw [e]; exact List.mem_cons_self)
+          · rcases hbk with h | h
+            · exact Or.inl (List.mem_cons_of_mem _ h)
+            · exact Or.inr ((List.mem_erase_of_ne e).mpr h)
+        · intro k hk'
+          by_cases e : k = key x
+          · exact Or.inl (by rw [e]; exact List.mem_cons_self)
+          · rcases h5 k hk' with h | h
+            · exact Or.inl (List.mem_cons_of_mem _ h)
+            · exact Or.inr ((List.mem_erase_of_ne e).mpr h)
+        · have hl : (todo.erase (key x)).length = todo.length - 1 := List.length_erase_of_mem hxt
+          have hpos : 0 < todo.length := List.length_pos_of_mem hxt
+          have hd := hD x
+          simp only [List.length_cons, List.length_append] at hf ⊢
+          rw [hl]
+          obtain ⟨T, hT⟩ : ∃ T, todo.length = T + 1 := ⟨todo.length - 1, by omega⟩
+          rw [hT] at hf ⊢
+          simp only [Nat.add_sub_cancel]
+          rw [Nat.succ_mul] at hf
+          omega
+
+/-- **closure() is complete**: given enough fuel (a bound that the size of the key universe and
+the out-degree determine), every entity reachable from the start set is yielded (by key) -/
+theorem closureGen_complete {α κ} [BEq κ] [LawfulBEq κ] (related : α → List α) (key : α → κ)
+    (hk : ∀ a b, key a = key b → related a = related b) (start : List α) (univ : List κ) (D : Nat)
+    (hD : ∀ x, (related x).length ≤ D) (hU : ∀ x, ∀ y ∈ related x, key y ∈ univ) (hS : ∀ s ∈ start, key s ∈ univ)
+    (f : Nat) (hf : start.length + univ.length * (D + 1) ≤ f) (y : α) (hy : Reach related start y) :
+    key y ∈ (closureGen related key f start [] []).map key :=
+  closureGen_complete_aux related key hk start univ D hD hU f start [] [] univ
+    (by simp) (by simp) (by simp) (fun s hs => Or.inr hs) (fun y hy => Or.inr (hS y hy)) (fun k hk => Or.inr hk) hf y hy
+
+
+/-- `get_related` depends only on the identity (ili, lexicon, rowid) of the synset -/
+theorem synsetGetRelated_congr (db : Db) (w : Wordnet) (types : List String) (a b : SynsetData) (h : synKey a = synKey b) :
+    synsetGetRelated db w a types = synsetGetRelated db w b types := by
+  have h1 : a.ili = b.ili := congrArg (fun k => k.1) h
+  have h2 : a.lex = b.lex := congrArg (fun k => k.2.1) h
+  have h3 : a.rowid = b.rowid := congrArg (fun k => k.2.2) h
+  unfold synsetGetRelated synsetIterRelations
+  simp only [List.map_append, List.map_map]
+  have e1 : localSynsetRelations db w a types = localSynsetRelations db w b types := by
+    unfold localSynsetRelations; rw [h2, h3]
+  have e2 : expandedSynsetRelations db w a types = expandedSynsetRelations db w b types := by
+    unfold expandedSynsetRelations; rw [h1, h2, h3]
+  rw [e1, e2]
+  rfl
+
+/-- `Synset.closure()` yields (by identity) every synset reachable over the given relation types,
+whenever the fuel covers `|start| + |identities| · (out-degree bound + 1)` -/
+theorem C11_closure_complete (db : Db) (w : Wordnet) (x : SynsetData) (types : List String) (n : Nat)
+    (univ : List (Option String × Nat × Nat)) (D : Nat)
+    (hD : ∀ y, (synsetGetRelated db w y types).length ≤ D)
+    (hU : ∀ y, ∀ z ∈ synsetGetRelated db w y types, synKey z ∈ univ)
+    (hf : (synsetGetRelated db w x types).length + univ.length * (D + 1) ≤ n * n + n + 2)
+    (y : SynsetData) (hy : Reach (fun y => synsetGetRelated db w y types) (synsetGetRelated db w x types) y) :
+    synKey y ∈ (synsetClosure db w x types n).map synKey := by
+  unfold synsetClosure
+  exact closureGen_complete _ _ (fun a b h => synsetGetRelated_congr db w types a b h) _ univ D hD hU
+    (fun s hs => hU x s hs) _ hf y hy
+
 /-- `relation_paths()`: every path is simple — no synset of the path repeats and none is in the
 visited set the search started with; termination is structural -/
 theorem synPaths_simple (related : SynsetData → List SynsetData) :
